@@ -201,6 +201,20 @@ func ruleE6(p *Program, r *Reporter) {
 			}
 		}
 		fname := typesFuncName(p.LookupFunc(s.pkg, s.recv, s.name))
+		if len(ment) == 0 {
+			// the site names no constant of the group at all: it may delegate the whole
+			// decision to a same-package function that takes the value (a membership
+			// predicate such as v.Valid()); that function is then the site
+			for _, d := range p.delegates(s.pkg, s.recv, s.name, g) {
+				for _, nd := range p.siteNodesOf(s.pkg, d) {
+					for c, pos := range mentionedConsts(p.Pkgs[s.pkg].TypesInfo, nd, g) {
+						if _, ok := ment[c]; !ok {
+							ment[c] = pos
+						}
+					}
+				}
+			}
+		}
 		for _, c := range g.consts {
 			if why, ex := s.exclude[c.Name()]; ex {
 				if _, handled := ment[c]; handled {
@@ -254,7 +268,48 @@ func discoverExhaust(p *Program) {
 // siteNodes: syntax of the function, of the same-package functions it reaches by
 // static calls, and of the package-level map/slice literals those bodies refer to.
 func (p *Program) siteNodes(pkgrel, recv, name string) []ast.Node {
+	return p.siteNodesOf(pkgrel, p.Fn(pkgrel, recv, name))
+}
+
+// delegates: same-package functions called from the site with a receiver or
+// argument of the group's own (named) type.
+func (p *Program) delegates(pkgrel, recv, name string, g *constGroup) []*ssa.Function {
 	root := p.Fn(pkgrel, recv, name)
+	if root == nil || len(g.consts) == 0 {
+		return nil
+	}
+	gt, ok := g.consts[0].Type().(*types.Named)
+	if !ok {
+		return nil // untyped string groups: any string parameter would qualify
+	}
+	seen := map[*ssa.Function]bool{}
+	var out []*ssa.Function
+	for fn := range p.PrivateRegion(root) {
+		for _, b := range fn.Blocks {
+			for _, ins := range b.Instrs {
+				c, ok := ins.(ssa.CallInstruction)
+				if !ok {
+					continue
+				}
+				callee := c.Common().StaticCallee()
+				if callee == nil || seen[callee] || pkgOf(callee) != pkgrel || len(callee.Blocks) == 0 {
+					continue
+				}
+				for _, a := range c.Common().Args {
+					if types.Identical(a.Type(), gt) {
+						seen[callee] = true
+						out = append(out, callee)
+						break
+					}
+				}
+			}
+		}
+	}
+	sort.Slice(out, func(i, j int) bool { return out[i].Pos() < out[j].Pos() })
+	return out
+}
+
+func (p *Program) siteNodesOf(pkgrel string, root *ssa.Function) []ast.Node {
 	if root == nil {
 		return nil
 	}
